@@ -61,7 +61,7 @@ pub fn configs() -> Vec<Config> {
 }
 
 /// reply classes; `n` of a class may depend on the honest reply length
-pub const CLASSES: [&str; 18] = [
+pub const CLASSES: [&str; 20] = [
     "bit-flip",
     "key-plus-k",
     "length-variants",
@@ -80,6 +80,8 @@ pub const CLASSES: [&str; 18] = [
     "honest-control",
     "blind-attacker",
     "reused-authentication-context",
+    "malformed-then-honest",
+    "certificate-twin",
 ];
 pub const REUSE_REPLIES: u64 = 5;
 
@@ -388,7 +390,30 @@ pub fn make_reply(ctx: &FinalCtx, class: usize, sub: u64, r: &mut Rng) -> Option
             };
             send(b)
         }
-        "blind-attacker" | "reused-authentication-context" => None,
+        "blind-attacker" | "reused-authentication-context" | "certificate-twin" => None,
+        "malformed-then-honest" => {
+            // a reply the client cannot take, in a TLS record of its own, and the honest reply right behind it: the round
+            // has failed with the first one
+            let ver = Asn::Ctx(0, Box::new(Asn::Int(ctx.ts_version)));
+            let bad: Vec<u8> = match sub {
+                0 => h[..h.len() / 2].to_vec(),
+                1 => ber::der(&Asn::Seq(vec![ver])),
+                2 => ts(ctx.ts_version, vec![]),
+                3 => b"HTTP/1.1 400 Bad Request\r\n\r\n".to_vec(),
+                4 => {
+                    let mut b = h.clone();
+                    b[0] = 0x31;
+                    b
+                }
+                5 => ctx.client_authenticate_request.clone(),
+                6 => vec![0x30],
+                7 => cssp::build(&TsRequest { version: ctx.ts_version, error_code: Some(0xc000006d), ..Default::default() }),
+                8 => cssp::build(&TsRequest { version: ctx.ts_version, nego_tokens: vec![honest_sealed.clone()], ..Default::default() }),
+                9 => h[..h.len() - 1].to_vec(),
+                _ => return None,
+            };
+            Some(FinalAction::SendSplit(vec![bad, h.clone()]))
+        }
         "tls-close" => {
             if sub >= 1 {
                 return None;
@@ -569,9 +594,67 @@ fn run_reuse_case(conf: &Config, sub: u64, seed: u64) -> Result<Outcome, mon::Pa
     Ok(Outcome { connect: second, reached_final_round: g.0, reply: g.1.clone(), honest: false, app_bytes_after: app_after, auth_info_received: auth_info, raw_bytes_after: raw_after, skipped: false })
 }
 
+/// Two certificates with the same issuer and serial number but different keys. A first connection (same thread) sees the
+/// first one; the second connection is terminated by the other and answered with (key of the FIRST certificate)+1, sealed
+/// and signed correctly: the proof a relaying attacker gets from the genuine server. The client must compare with the
+/// certificate it sees now.
+fn run_twin_case(conf: &Config, sub: u64, seed: u64) -> Result<Outcome, mon::PanicInfo> {
+    let skipped = Outcome { connect: Ok(()), reached_final_round: false, reply: vec![], honest: false, app_bytes_after: 0, auth_info_received: false, raw_bytes_after: 0, skipped: true };
+    if sub >= 4 {
+        return Ok(skipped);
+    }
+    let (first_id, second_id) = if sub % 2 == 0 { (tls::TWIN_IDENTITIES[0], tls::TWIN_IDENTITIES[1]) } else { (tls::TWIN_IDENTITIES[1], tls::TWIN_IDENTITIES[0]) };
+    let mk = |id: usize, which: u64| -> Duplex {
+        let mut p = Profile::default();
+        p.selected_protocol = 2;
+        let d = Duplex::new(p);
+        let mut nr = Rng::derive(seed, "C01-twin-nla", which, sub);
+        let nla = crate::gen::nla_cfg(&mut nr, &conf.cfg);
+        d.with(|s| {
+            s.tls_identity = id;
+            s.tls12_only = sub >= 2;
+            s.nla_cfg = nla;
+        });
+        d
+    };
+    let d1 = mk(first_id, 1);
+    let d2 = mk(second_id, 2);
+    // the relaying attacker does not care what key the client's own token names
+    d2.with(|s| s.lenient_pubkey = true);
+    let first_key = tls::identity(first_id).subject_public_key.clone();
+    let shared: Arc<Mutex<(bool, Vec<u8>)>> = Arc::new(Mutex::new((false, Vec::new())));
+    let sh = shared.clone();
+    d2.with(|s| {
+        s.final_hook = Some(Box::new(move |ctx: &FinalCtx| {
+            let b = ts(ctx.ts_version, seal_with(&ctx.session_key, &cssp::le_increment(&first_key)));
+            let mut g = sh.lock().unwrap();
+            g.0 = true;
+            g.1 = b.clone();
+            FinalAction::Send(b)
+        }));
+    });
+    let cfg = conf.cfg.clone();
+    let (p1, p2) = (d1.clone(), d2.clone());
+    let res = mon::guarded(move || {
+        let first = client::connect_real(&cfg, d1.clone()).map(|_| ()).map_err(|e| client::err_kind(&e));
+        let second = client::connect_real(&cfg, d2.clone()).map(|_| ()).map_err(|e| client::err_kind(&e));
+        (first, second)
+    })?;
+    let (first, second) = res;
+    if first.is_err() || !p1.with(|s| s.nla_log.auth_info_received) {
+        return Ok(Outcome { connect: first, reached_final_round: false, reply: vec![], honest: false, app_bytes_after: 0, auth_info_received: false, raw_bytes_after: 0, skipped: false });
+    }
+    let g = shared.lock().unwrap();
+    let (app_after, auth_info, raw_after) = p2.with(|s| (s.plain_after_final_reply, s.nla_log.auth_info_received, s.raw_mark_final.map(|m| s.raw_post_tls.len().saturating_sub(m)).unwrap_or(0)));
+    Ok(Outcome { connect: second, reached_final_round: g.0, reply: g.1.clone(), honest: false, app_bytes_after: app_after, auth_info_received: auth_info, raw_bytes_after: raw_after, skipped: false })
+}
+
 pub fn run_case(conf: &Config, class: usize, sub: u64, seed: u64) -> Result<Outcome, mon::PanicInfo> {
     if CLASSES[class] == "reused-authentication-context" {
         return run_reuse_case(conf, sub, seed);
+    }
+    if CLASSES[class] == "certificate-twin" {
+        return run_twin_case(conf, sub, seed);
     }
     let mut p = Profile::default();
     p.selected_protocol = 2;
@@ -734,6 +817,8 @@ fn run_pass(cfg: &Cfg, seed: u64) -> Report {
                 "length-variants" => 54,
                 "blind-attacker" => BLIND_FLAGS.len() as u64 * BLIND_REPLIES,
                 "reused-authentication-context" => REUSE_REPLIES,
+                "malformed-then-honest" => 10,
+                "certificate-twin" => 4,
                 _ => 40,
             };
             let confs_ref = &confs;
